@@ -50,6 +50,19 @@ def run_property(prop, tier, seed, jobs=None, only=None, verbose=False):
     if not canary():
         print("ENGINE-ERROR: canary obligation was not refuted")
         return EXIT_ENGINE
+    spec_sanity = None
+    if tier == "thorough" and prop in ("C01", "C02", "C03", "C04", "C05") and not only:
+        # sanity (never evidence): the spec tables against the real library and the replay oracle
+        import io, contextlib
+        from . import speccheck
+        buf = io.StringIO()
+        with contextlib.redirect_stdout(buf):
+            rc = speccheck.main(250, seed)
+        spec_sanity = buf.getvalue().strip().splitlines()[-1]
+        if rc != 0:
+            print(buf.getvalue())
+            print("ENGINE-ERROR: the specification tables disagree with the real library / the replay oracle")
+            return EXIT_ENGINE
     results, prog = engine.run_specs(specs, tier=tier, seed=seed, jobs=jobs, prog=prog)
     known = engine.load_known_findings()
     obls, errors, unsupported = [], [], []
@@ -145,6 +158,7 @@ def run_property(prop, tier, seed, jobs=None, only=None, verbose=False):
             "cvc5_second_opinion": {k: sum((r.get("extra") or {}).get(k, 0) for r in results)
                                     for k in ("cvc5_agree", "cvc5_no_opinion", "cvc5_disagree")} if tier == "thorough" else "thorough tier only",
             "static_analysis_sites": {r["family"]: r["extra"] for r in results if (r.get("extra") or {}).get("sites")},
+            "spec_sanity_crosscheck": spec_sanity or "thorough tier of C01-C05 only",
             "lean_lemmas": __import__("pyvc.lemmas", fromlist=["status"]).status(),
             "arity_bounds": {"outer_K": 4 if tier == "thorough" else 3, "nested_J": 3 if tier == "thorough" else 2},
             "source_sha256": prog.source_hashes(),
@@ -190,11 +204,23 @@ IMPORTS = {
             ("C09", lambda name: "._reset_evaluation_cache/" in name, False, lambda fam: fam.endswith("._reset_evaluation_cache")),
             ("C03", lambda name: True, False, lambda fam: True), ("C04", lambda name: True, False, lambda fam: True),
             ("C05", lambda name: True, False, lambda fam: True), ("C07", lambda name: True, False, lambda fam: True)],
+    # C01 / C03 (bare numbers for one-variable expressions) rest on the constructors' Vars contract
+    "C01": [("C09", _memo, True, lambda fam: False),
+            ("C09", lambda name: "._reset_evaluation_cache/" in name, False, lambda fam: fam.endswith("._reset_evaluation_cache")),
+            ("C14", lambda name: ".__init__" in name, False, lambda fam: fam.endswith(".__init__"))],
+    "C03": [("C09", _memo, True, lambda fam: False),
+            ("C09", lambda name: "._reset_evaluation_cache/" in name, False, lambda fam: fam.endswith("._reset_evaluation_cache")),
+            ("C14", lambda name: ".__init__" in name, False, lambda fam: fam.endswith(".__init__"))],
+    # C17 / C08: code downstream of the constructors relies on their contracts (the stored degree
+    # is a Python int, Vars is the union of the children's): import the constructor obligations
+    "C17": [("C14", lambda name: ".__init__" in name, False, lambda fam: fam.endswith(".__init__")),
+            ("C16", lambda name: ".__init__" in name, False, lambda fam: fam.endswith(".__init__"))],
+    "C08": [("C16", lambda name: "n-stored-as-int" in name, False, lambda fam: fam.endswith(".__init__"))],
     # ... and the contract of _reset_evaluation_cache (used at every public entry) is proved by
     # its own per-class families
     **{p: [("C09", _memo, True, lambda fam: False),
            ("C09", lambda name: "._reset_evaluation_cache/" in name, False, lambda fam: fam.endswith("._reset_evaluation_cache"))]
-       for p in ("C01", "C02", "C03", "C04", "C05", "C07", "C14")},
+       for p in ("C02", "C04", "C05", "C07", "C14")},
 }
 MAX_REPLAYS = 12
 MIN_OBLIGATIONS = {}
@@ -214,9 +240,15 @@ def main(argv=None):
     if a.what == "replay":
         from . import replay
         return replay.run_file(a.path)
+    if a.what == "speccheck":
+        from . import speccheck
+        return speccheck.main(int(a.path) if a.path else 300, seed)
     if a.what == "lemmas":
         from . import lemmas
         return lemmas.main()
+    if a.what == "benign":
+        from . import selftest
+        return selftest.benign(a.only)
     if a.what == "selftest":
         from . import selftest
         return selftest.main(a.only)
